@@ -360,6 +360,11 @@ func (g *gen) nilOf(t *cadence.OptionalType) cadence.Value {
 // value produces a value whose run-time type is a subtype of the static type t, carrying complete
 // type information.
 func (g *gen) value(t cadence.Type, depth int) cadence.Value {
+	if depth < -48 {
+		// a composite type that (mutually) contains itself without an optional / container in
+		// between has no finite value
+		panic(noFiniteValue{})
+	}
 	switch t := t.(type) {
 	case cadence.PrimitiveType:
 		return g.primValue(t, depth)
@@ -502,4 +507,21 @@ func (g *gen) fieldValues(t cadence.CompositeType, depth int) []cadence.Value {
 // to compare dictionaries as maps (kind + content; independent of the codecs).
 func keyString(v cadence.Value) string {
 	return describeValue(v, 0)
+}
+
+// noFiniteValue is raised by value() for generated types that have no finite value.
+type noFiniteValue struct{}
+
+// tryBuild runs build; ok is false when the generated type has no finite value.
+func tryBuild(build func(*tape) cadence.Value, t *tape) (v cadence.Value, ok bool) {
+	defer func() {
+		if r := recover(); r != nil {
+			if _, is := r.(noFiniteValue); is {
+				v, ok = nil, false
+				return
+			}
+			panic(r)
+		}
+	}()
+	return build(t), true
 }
